@@ -35,7 +35,12 @@ def run_property(pid: str, tier: str, seed: int) -> int:
     if not rep.obligations and not rep.bounded:
         raise CheckerError("zero obligations and zero bounded contracts generated")
     base_names = set(baseline.get("obligations", []))
-    missing = sorted(base_names - set(names))
+    # a function that left the supported subset has one `<function>.in_subset` obligation (undecided) instead of
+    # its VCs: its baseline obligations are then not "missing" -- the property falls back to the bounded stand-in
+    left = [n[:-len("in_subset")] for n in names if n.endswith(".in_subset")]
+    missing = sorted(n for n in base_names - set(names) if not any(n.startswith(pfx) for pfx in left))
+    if left:
+        rep.extra["functions_outside_the_supported_subset"] = [p.rstrip(".") for p in left]
     if missing and tier in baseline.get("tiers", ["quick", "thorough"]):
         raise CheckerError(f"{len(missing)} baseline obligation(s) were not generated, e.g. {missing[:3]}")
     for b in rep.bounded:
